@@ -145,11 +145,26 @@ def is_output_externally_consumed(
 
     source_container = source_node if source_attrs.get("node_type") == "GRAPH" else source_parent
 
-    for node_id, attrs in flat_graph.nodes(data=True):
-        if output_param in attrs.get("inputs", ()) and not is_descendant_of(node_id, source_container, flat_graph):
-            return True
-
-    return False
+    # Level by level outwards: beside `level` the value is known as `name`; the
+    # enclosing container may expose it under another name (with_outputs).
+    name = output_param
+    level = source_container
+    while True:
+        enclosing = get_parent(level, flat_graph)
+        for node_id, attrs in flat_graph.nodes(data=True):
+            if name not in attrs.get("inputs", ()) or is_descendant_of(node_id, source_container, flat_graph) or node_id == source_container:
+                continue
+            if enclosing is None or is_descendant_of(node_id, enclosing, flat_graph):
+                return True
+        if enclosing is None:
+            return False
+        enclosing_attrs = flat_graph.nodes.get(enclosing, {})
+        exposed_as = [outer for outer, inner in enclosing_attrs.get("output_sources", {}).items() if inner == name]
+        if exposed_as:
+            name = exposed_as[0]
+        elif name not in enclosing_attrs.get("outputs", ()):
+            return False
+        level = enclosing
 
 
 def build_graph_output_visibility(flat_graph: nx.DiGraph) -> dict[str, set[str]]:
@@ -208,6 +223,32 @@ def find_container_exit_points(
     return exit_points
 
 
+def internal_output_name(
+    container_id: str,
+    producer_id: str,
+    output_name: str,
+    flat_graph: nx.DiGraph,
+) -> str:
+    """Name under which `producer_id`, inside `container_id`, knows what the container exposes as `output_name`.
+
+    Every container on the way down translates the name through its own
+    `with_outputs` renames (`output_sources`: exposed name -> inner name).
+    """
+    chain: list[str] = []
+    current = flat_graph.nodes[producer_id].get("parent") if producer_id in flat_graph.nodes else None
+    while current is not None:
+        chain.append(current)
+        if current == container_id:
+            break
+        current = flat_graph.nodes[current].get("parent")
+    if not chain or chain[-1] != container_id:
+        return output_name
+    name = output_name
+    for level in reversed(chain):
+        name = flat_graph.nodes[level].get("output_sources", {}).get(name, name)
+    return name
+
+
 def find_internal_producer_for_output(
     container_id: str,
     output_name: str,
@@ -218,8 +259,13 @@ def find_internal_producer_for_output(
 
     Handles the `with_outputs` rename case: when a container exposes
     `retrieval_eval_results` but internally `compute_recall` produces
-    `retrieval_eval_result`, we need to find `compute_recall`.
+    `retrieval_eval_result`, we need to find `compute_recall`. The container
+    records the inner name behind each renamed output (`output_sources`), and
+    an expanded inner container is entered in turn.
     """
+    renamed = flat_graph.nodes[container_id].get("output_sources", {}) if container_id in flat_graph.nodes else {}
+    inner_name = renamed.get(output_name, output_name)
+
     internal_producers: dict[str, str] = {}
     for node_id, attrs in flat_graph.nodes(data=True):
         if attrs.get("parent") != container_id:
@@ -237,15 +283,44 @@ def find_internal_producer_for_output(
 
     terminal_outputs = {out: prod for out, prod in internal_producers.items() if out not in internal_consumed}
 
-    if output_name in terminal_outputs:
-        producer = terminal_outputs[output_name]
-        if is_node_visible(producer, flat_graph, expansion_state):
+    for candidates in (terminal_outputs, internal_producers):
+        producer = candidates.get(inner_name)
+        if producer is not None and is_node_visible(producer, flat_graph, expansion_state):
+            if flat_graph.nodes[producer].get("node_type") == "GRAPH" and expansion_state.get(producer, False):
+                deeper = find_internal_producer_for_output(producer, inner_name, flat_graph, expansion_state)
+                if deeper is not None:
+                    return deeper
             return producer
 
-    # Fuzzy fallback: with_outputs renames can differ slightly (e.g. pluralization).
+    if output_name in renamed or inner_name in internal_producers:
+        # the name is known exactly: nothing to guess
+        return None
+
+    # Fuzzy fallback for names no rename record explains (e.g. pluralization).
     # Substring matching is intentionally loose to maximize recall in visualization.
     for internal_out, producer in terminal_outputs.items():
         if (internal_out in output_name or output_name in internal_out) and is_node_visible(producer, flat_graph, expansion_state):
             return producer
 
     return None
+
+
+def enter_expanded_producer(
+    source: str,
+    producer: str,
+    value_name: str,
+    flat_graph: nx.DiGraph,
+    expansion_state: dict[str, bool],
+) -> str:
+    """If `producer` (inside the expanded container `source`) is itself an expanded container, go on to the node inside it.
+
+    `value_name` is the name `source` exposes; every container on the way
+    translates it through its own output renames.
+    """
+    attrs = flat_graph.nodes.get(producer, {})
+    if producer == source or attrs.get("node_type") != "GRAPH" or not expansion_state.get(producer, False):
+        return producer
+    inner_name = internal_output_name(source, producer, value_name, flat_graph)
+    deeper = find_internal_producer_for_output(producer, inner_name, flat_graph, expansion_state)
+    return deeper if deeper is not None else producer
+
